@@ -25,6 +25,7 @@ def value_of(node):
 def oracle(h):
     """the property itself on the implementation's observations of one history"""
     fails = []
+    h.handles, h.notifs = {}, []
     nodes = {n["id"]["key"]: n for n in (h.init.get("nodes") or [])}
     for e in h.evs:
         ev, o = e["ev"], e["out"]
@@ -54,6 +55,20 @@ def oracle(h):
             for k, n in nodes.items():
                 if lacks(n, WRITE) and k in after and value_of(after[k]) != value_of(n):
                     fails.append(("value-changed", "value of %s changed although the node lacks CurrentWrite" % n["id"]["str"], e))
+        if ev["kind"] == "createitems" and o["k"] == "createitems":
+            for hd, rv in zip(ev.get("handles") or [], ev.get("reads") or []):
+                h.handles[hd] = rv
+        if ev["kind"] == "publish" and o.get("notifs"):
+            # data change notifications are reads too: the node's state is the one dumped after the previous request
+            for nt in o["notifs"]:
+                rv = h.handles.get(nt["handle"])
+                n = nodes.get(rv["node"]["key"]) if rv else None
+                if n is None:
+                    continue
+                h.notifs.append((n, list(nodes.values()), rv, nt["dv"], e))
+                if lacks(n, READ) and (nt["dv"]["s"] != DENIED or nt["dv"]["v"]["k"] != "nil"):
+                    fails.append(("notification-not-denied", "a data change notification for attribute %d of %s carries %s although the node lacks CurrentRead" % (
+                        rv["attr"], n["id"]["str"], json.dumps(nt["dv"])), e))
         if ev["kind"] in ("read", "write") and o["k"] in ("timeout", "error", "dead"):
             fails.append(("no-answer", "the server did not answer a %s request (%s)" % (ev["kind"], o.get("err", o["k"])), e))
         if after:
@@ -115,6 +130,23 @@ def run(ctx):
         # a disagreement is reported with the history as replay (the oracle may not have flagged it)
         detail.setdefault("mismatch_histories", []).append({"hist": h.id, "events": [[x["ev"], x["out"]] for x in h.evs]})
 
+    # correspondence for the notification path: what the subscriber was sent = Model read_one on the node's state
+    notifs = [x for h in hists for x in getattr(h, "notifs", [])]
+    nbad = []
+    if notifs:
+        nl = []
+        for n, allnodes, rv, dv, e in notifs:
+            nl.append("(Space %d [%s], %s, %d, %s)" % (max(2, rv["node"]["ns"] + 1), "; ".join(sc.node(x) for x in allnodes), sc.nid(rv["node"]), rv["attr"], sc.dval(dv)))
+        okn, idxn, clogn = ctx.eval_cases(sc.IMPORTS, "space * nid * N * dval", nl,
+                                          "  let '(sp, n, attr, d) := c in dval_eqb (snd (read_one sp (n, attr))) d", shard=200, name="NotifCases")
+        if not okn:
+            corr_ok = False
+            detail["notif_cases"] = clogn[-1500:]
+        elif idxn:
+            corr_ok = False
+            nbad = [notifs[i] for i in idxn]
+            detail["notification_model_vs_impl_mismatches"] = [{"node": x[0]["id"]["str"], "attr": x[2]["attr"], "sent": x[3]} for x in nbad[:5]]
+
     reads = sum(len(e["ev"].get("reads") or []) for h in hists for e in h.evs if e["ev"]["kind"] == "read")
     writes = sum(len(e["ev"].get("writes") or []) for h in hists for e in h.evs if e["ev"]["kind"] == "write")
     combos = set()
@@ -135,6 +167,8 @@ def run(ctx):
                 "nil Variant, nil value); distinct = distinct (AccessLevel, UserAccessLevel, value kind) of the nodes used",
         "histories": len(hists), "read_elements": reads, "write_elements": writes,
         "denied_reads": denied_r, "denied_writes": denied_w,
+        "notifications_checked": len(notifs), "notifications_denied": sum(1 for x in notifs if x[3]["s"] == DENIED),
+        "notification_model_impl_mismatches": len(nbad),
         "samples": [{"node": h.init["nodes"][0], "first_event": h.evs[2]["ev"], "outcome": h.evs[2]["out"]} for h in hists[:3] if len(h.evs) > 2 and h.init.get("nodes")],
         "traces_validated_against_impl": len([h for h in hists if h.final is not None]),
         "model_impl_mismatches": len(bad),
